@@ -368,6 +368,52 @@ def large_blocks(ctx, rng):
             ctx.nontrivial(("large", name, dt, flavour, sym, ferm))
 
 
+def illcond_solve(ctx, rng):
+    """solve in single precision (and the other types) with moderately ill-conditioned blocks
+    (condition 1e3 .. 1e6, where a mixed-precision shortcut would start to act): the solution
+    keeps the type of the data."""
+    sr = ctx.sr
+    dt = rng.choice(["float32", "float32", "complex64", "complex128", "float64"])
+    sym = rng.choice(gen.SYMS5)
+    ferm = rng.random() < 0.4
+    cs = rng.sample(gen.POOL[sym], rng.randint(1, min(3, len(gen.POOL[sym]))))
+    d_ = rng.randint(2, 6)
+    r = sr.BlockIndex({c: d_ for c in sorted(cs)}, dual=rng.random() < 0.5)
+    a = gen.make_array(sr, rng, sym, [r, gen.conj_index(sr, r)], charge=R.identity(sym), fermionic=ferm, values=gen.Values(rng, "gauss", dt), sparsity=0.0, nphase=0, exotic=False)
+    if not a.blocks:
+        return
+    npr = np.random.default_rng(rng.getrandbits(60))
+    for s_, b in list(a.blocks.items()):
+        b = np.asarray(b)
+        u_, _, vh_ = np.linalg.svd(b.astype("complex128" if b.dtype.kind == "c" else "float64"))
+        sv = np.ones(b.shape[0])
+        lo = rng.choice([1e-3, 1e-4, 5e-6, 1e-6])
+        sv[1:] = np.geomspace(3e-2, lo, b.shape[0] - 1) if b.shape[0] > 1 else sv[1:]
+        a.blocks[s_] = ((u_ * sv) @ vh_).astype(dt)
+    kind = "static" if type(a).static_symmetry else "generic_str"
+    # right-hand side in the range of the system (x0 random, b = a x0), built by the harness
+    x0 = gen.make_array(sr, rng, sym, [gen.conj_index(sr, a.indices[1])], fermionic=ferm, kind=kind, values=gen.Values(rng, "gauss", dt), sparsity=0.0, nphase=0, exotic=False, label=5)
+    ob = ctx.call(lambda: sr.tensordot(a, x0, axes=1, preserve_array=True))
+    if not ob.ok or not ob.value.blocks:
+        return
+    b = ob.value
+    for s_ in list(b.blocks):
+        b.blocks[s_] = np.asarray(b.blocks[s_]).astype(dt)
+    o = ctx.call(lambda: sr.linalg.solve(a, b))
+    ctx.evaluated()
+    ctx.count("dtype", dt)
+    ctx.count("op", "illcond-solve")
+    wit = {"dtype": dt, "a": describe(a), "b": describe(b)}
+    if not o.ok:
+        if isinstance(o.exc, Warning):
+            ctx.violation("complex-warning:solve", f"solve on {dt} data emitted {o.exc!r}", wit)
+        else:
+            ctx.count("raises", f"illcond-solve:{o.excname}")
+        return
+    if judge_dtype(ctx, "solve", "same", o.value, dt, wit) and dt != "float64":
+        ctx.nontrivial(("illcond-solve", dt, sym, ferm, d_))
+
+
 def sparse_hermitian(ctx, rng):
     """eigh of Hermitian matrices with MISSING diagonal sectors, single precision and complex:
     eigenvalues real of matching precision, every eigenvector block of the input's type."""
@@ -485,6 +531,8 @@ def run(ctx):
         ctx.run_case(run_program, ctx, rng)
     for _, rng in ctx.cases("dedicated", ctx.budget(21000, 400000)):
         ctx.run_case(dedicated, ctx, rng)
+    for _, rng in ctx.cases("illcond-solve", ctx.budget(6000, 120000)):
+        ctx.run_case(illcond_solve, ctx, rng)
     for _, rng in ctx.cases("sparse-hermitian", ctx.budget(6000, 120000)):
         ctx.run_case(sparse_hermitian, ctx, rng)
     for _, rng in ctx.cases("large-blocks", ctx.budget(900, 18000)):
